@@ -25,7 +25,7 @@ REPO = os.environ.get("VERIF_REPO", "/repo")
 LEAN = os.path.join(ROOT, "lean")
 PY = os.environ.get("VERIF_PY", "/venv/bin/python")
 TRX = os.path.join(REPO, "src/target/trx_toolkit")
-DRIVER = os.path.join(LEAN, ".lake/build/bin/driver")
+DRIVER = None  # per-property executables: see driver_exe()
 ALLOWED_AXIOMS = {"propext", "Classical.choice", "Quot.sound"}
 FORBIDDEN = re.compile(
     r"\bsorry\b|\badmit\b|^\s*axiom\s|native_decide|bv_decide|implemented_by|\bunsafe\s|maxHeartbeats\s+0\b|@\[extern",
@@ -179,6 +179,25 @@ def theorems_of(module):
     return names
 
 
+def import_closure(modules):
+    """files of the OsmoVerif.* modules transitively imported by `modules`"""
+    seen, todo = {}, list(modules)
+    while todo:
+        m = todo.pop()
+        if m in seen or not m.startswith("OsmoVerif"):
+            continue
+        path = os.path.join(LEAN, m.replace(".", "/") + ".lean")
+        seen[m] = path
+        try:
+            for ln in open(path):
+                mm = re.match(r"^\s*(?:public\s+)?import\s+(\S+)", ln)
+                if mm:
+                    todo.append(mm.group(1))
+        except OSError:
+            pass
+    return set(seen.values())
+
+
 def lake_build(targets, timeout=3600):
     t0 = time.time()
     with LakeLock():
@@ -189,11 +208,23 @@ def lake_build(targets, timeout=3600):
 _ERR = re.compile(r"^error: (\S+?\.lean):(\d+):(\d+): (.*)$", re.M)
 
 
-def gen_driver():
-    """Driver.lean = dispatcher over every OsmoVerif/Driver/*.lean module (except Util);
-    each such module X defines `OsmoVerif.Driver.X.handle : List String → Option String`."""
+CURRENT = {"prop": None, "driver_modules": None}
+
+
+def driver_exe(prop=None):
+    prop = prop or CURRENT["prop"]
+    return os.path.join(LEAN, ".lake/build/bin/driver_%s" % prop)
+
+
+def gen_driver(prop=None, modules=None):
+    """Driver<Cxx>.lean = dispatcher over the OsmoVerif/Driver/*.lean modules this property needs
+    (each defines `OsmoVerif.Driver.X.handle : List String → Option String`).  One executable per
+    property, so that a broken model of another property can never break this property's check."""
+    prop = prop or CURRENT["prop"]
     d = os.path.join(LEAN, "OsmoVerif/Driver")
-    mods = sorted(f[:-5] for f in os.listdir(d) if f.endswith(".lean") and f != "Util.lean")
+    mods = modules if modules is not None else CURRENT["driver_modules"]
+    if mods is None:
+        mods = sorted(f[:-5] for f in os.listdir(d) if f.endswith(".lean") and f != "Util.lean")
     txt = "-- GENERATED by lib/vf.py (gen_driver): line-protocol driver over the executable models.\n"
     txt += "-- One request per line, one canonical answer per line; unknown or malformed requests\n"
     txt += "-- answer `bad-op` (never a default value).\n"
@@ -216,24 +247,25 @@ def main : IO Unit := do
   loop hin hout
   hout.flush
 """
-    write_if_changed(os.path.join(LEAN, "Driver.lean"), txt)
+    write_if_changed(os.path.join(LEAN, "Driver%s.lean" % prop), txt)
+    return "driver_%s" % prop
 
 
-def prove(modules, extra_targets=("driver",)):
+def prove(modules, extra_targets=None):
     """build the Props modules, audit their axioms, grep forbidden tokens"""
     res = ProofResult()
-    gen_driver()
+    if extra_targets is None:
+        extra_targets = (gen_driver(),)
     for m in modules:
         res.theorems += theorems_of(m)
-    # forbidden tokens anywhere in the hand-written or generated Lean sources
-    for dp, dn, fn in os.walk(LEAN):
-        if ".lake" in dp:
+    # forbidden tokens in every Lean source this property's theorems and driver depend on
+    for p in sorted(import_closure(list(modules) + ["OsmoVerif.Driver.%s" % m for m in (CURRENT["driver_modules"] or [])])):
+        try:
+            src = open(p).read()
+        except OSError:
             continue
-        for f in fn:
-            if f.endswith(".lean"):
-                p = os.path.join(dp, f)
-                for m in FORBIDDEN.finditer(strip_lean_comments(open(p).read())):
-                    res.forbidden.append("%s: %s" % (os.path.relpath(p, LEAN), m.group(0).strip()))
+        for m in FORBIDDEN.finditer(strip_lean_comments(src)):
+            res.forbidden.append("%s: %s" % (os.path.relpath(p, LEAN), m.group(0).strip()))
     # audit files
     audits = []
     for m in modules:
@@ -320,10 +352,11 @@ def leanchecker(modules):
 
 def run_driver(lines, timeout=3600):
     """feed request lines to the compiled Lean driver, return answer lines"""
-    if not os.path.exists(DRIVER):
-        raise InternalError("driver binary missing (lake build driver failed?)")
+    exe = driver_exe()
+    if not os.path.exists(exe):
+        raise InternalError("driver binary missing (lake build %s failed?)" % os.path.basename(exe))
     data = "\n".join(lines) + "\n" if lines else ""
-    p = subprocess.run([DRIVER], input=data, stdout=subprocess.PIPE, stderr=subprocess.PIPE,
+    p = subprocess.run([exe], input=data, stdout=subprocess.PIPE, stderr=subprocess.PIPE,
                        text=True, timeout=timeout)
     if p.returncode != 0:
         raise InternalError("driver exited %d: %s" % (p.returncode, p.stderr[-500:]))
@@ -595,6 +628,8 @@ def standard_main(mod):
     ap.add_argument("--seed", type=int, default=int(os.environ.get("VERIF_SEED", "0") or 0))
     args = ap.parse_args(sys.argv[2:])
     run = Run(mod.ID, args.tier, args.seed)
+    CURRENT["prop"] = mod.ID
+    CURRENT["driver_modules"] = getattr(mod, "DRIVER_MODULES", None)
     try:
         if args.replay:
             return mod.replay(run, args.replay)
